@@ -297,7 +297,7 @@ class Runner(object):
                 if viols:
                     nviol += len(viols)
                     for v in viols:
-                        if len(self.violations) < 20000:
+                        if len(self.violations) < 100000:
                             self.violations.append((space.name, idx, vcase, v))
                         else:
                             self.dropped_violations += 1
@@ -523,6 +523,12 @@ def run_check(mod, argv=None):
         print("HARNESS-ERROR: %s %s\n%s" % (v["where"], v["observed"], v.get("detail", "")))
         print("case:", json.dumps(jsonable(case))[:1000])
         sys.exit(2)
+    if run.dropped_violations and not groups:
+        # more violations than the runner stores: the ones beyond the cap were not classified
+        print("violation overflow: %d violations beyond the stored %d were not classified against known findings"
+              % (run.dropped_violations, len(run.violations)))
+        print("VIOLATION property=%s replay=%s" % (pid, "(none: overflow, rerun with --only <space>)"))
+        sys.exit(1)
     if groups:
         for key in sorted(groups):
             _, space, case, v = groups[key]
